@@ -47,15 +47,15 @@ TIMEOUT = {'quick': 900, 'thorough': 7200}
 def shards(tier, seed):
     q = tier == 'quick'
     out = [{'name': 'history', 'what': 'history',
-            'pool': 96 if q else 1500, 'events': 5000 if q else 100000,
-            'fresh': 96 if q else 1500}]
+            'pool': 160 if q else 1500, 'events': 6000 if q else 100000,
+            'fresh': 128 if q else 1500, 'storm': 1500 if q else 8000}]
     reps = 3 if q else 10
     for r in range(reps):
         out.append({'name': 'threads%d' % r, 'what': 'threads', 'rep': r,
-                    'pool': 96 if q else 400, 'threads': 8 if q else 16,
+                    'pool': 160 if q else 400, 'threads': 8 if q else 16,
                     'ops': 400 if q else 2000, 'rounds': 4 if q else 8})
     out.append({'name': 'alias', 'what': 'alias',
-                'pool': 200 if q else 2000})
+                'pool': 240 if q else 2000})
     return out
 
 
@@ -130,10 +130,15 @@ def _state_check(rec, base, shadow, where, case):
     bad = [c for c in ch if c != SWITCH]
     rec.count('state_snapshots')
     if bad:
-        rec.violation('module-state-changed:' + _statekey(bad[0]),
-                      'pamqp module/class state changed %s: %s'
-                      % (where, bad[:5]), case)
-        return False
+        # An internal cache or counter is not by itself a violation of the
+        # property (results are what matter).  It is recorded, and it makes
+        # the history run its amplification phase so that anything that
+        # leaks or goes stale shows up in the results.
+        for b in bad[:20]:
+            rec.seen('module_state_changed', _statekey(b))
+        rec.count('module_state_changes_observed')
+        rec.note('pamqp module/class state changed %s: %s'
+                 % (where, bad[:4]))
     from pamqp import encode
     if bool(encode.DEPRECATED_RABBITMQ_SUPPORT) != bool(shadow):
         rec.violation('switch-not-shadow', 'legacy switch is %r, shadow %r'
@@ -207,6 +212,43 @@ def _history(shard, rec, pool):
     _state_check(rec, base, shadow, 'after the history',
                  {'op': pool[0], 'switch': shadow,
                   'prefix': _prefix(log, pool, 200)})
+    # amplification: a storm of failing operations (every failing op of the
+    # pool, many times over), then every op once more in both switch states.
+    # A counter that leaks on failures, a cache poisoned by a failure or
+    # anything else that accumulates now changes a result.
+    failing = [i for i in range(len(pool)) if i not in nonterm and any(
+        first.get((i, sw), '').startswith('["raised"') for sw in (False,
+                                                                   True))]
+    storm = 0
+    want = shard.get('storm', 1500)
+    while failing and storm < want:
+        for i in failing:
+            _run_guarded(pool[i])
+            storm += 1
+    rec.count('failure_storm_ops', storm)
+    for sw in (False, True):
+        ops.set_switch(sw)
+        for i, op in enumerate(pool):
+            if i in nonterm:
+                continue
+            r = _run_guarded(op)
+            rec.ev()
+            if r is None:
+                continue
+            if (i, sw) in first and first[(i, sw)] != r:
+                rec.violation('history-dependent-result:' + op['op'],
+                              'op #%d (%s) gives a different result after a '
+                              'storm of %d failing operations than it gave '
+                              'earlier in the same process'
+                              % (i, op['op'], storm),
+                              {'op': op, 'switch': sw,
+                               'prefix': [[False, pool[j]] for j in failing]
+                               * 3},
+                              observed=r[:400], expected=first[(i, sw)][:400])
+                ops.set_switch(False)
+                return
+            first.setdefault((i, sw), r)
+    rec.count('post_storm_verifications', 2 * len(pool))
     ops.set_switch(False)
     # fresh-interpreter comparison of every distinct (op, switch) observed
     keys = sorted(first)
@@ -249,34 +291,57 @@ def _threads(shard, rec, pool):
     rnd = random.Random('C16-threads:%s:%s' % (shard['seed'], shard['rep']))
     ops.set_switch(False)
     base = state.library_state()
-    # sequential reference digests, both switch states
+    # NO warm-up: the threads make the first ever call of every class in
+    # this process, concurrently (lazily built per-class state is raced);
+    # the sequential reference is computed AFTER the threads have finished.
+    usable = list(range(len(pool)))
     ref = {}
-    usable = []
-    for i, op in enumerate(pool):
-        ok = True
-        for sw in (False, True):
-            ops.set_switch(sw)
-            r = _run_guarded(op)
-            if r is None:
-                ok = False
-                break
-            ref[(i, sw)] = r
-        if ok:
-            usable.append(i)
-    ops.set_switch(False)
     T = shard['threads']
     per_round = shard['ops'] // shard['rounds']
-    plans = [[[rnd.choice(usable) for _ in range(per_round)]
-              for _ in range(shard['rounds'])] for _ in range(T)]
+    first_round = [rnd.choice(usable) for _ in range(per_round)]
+    plans = [[(list(first_round) if r == 0 else
+               [rnd.choice(usable) for _ in range(per_round)])
+              for r in range(shard['rounds'])] for _ in range(T)]
     modes = [bool(r % 2) for r in range(shard['rounds'])]
     mism = []
     errs = []
     lock = threading.Lock()
     barrier = threading.Barrier(T)
     done = [0] * T
+    results = [[] for _ in range(T)]
+
+    # phase A material: for every method class one encode op and one decode
+    # op (wire bytes from the reference encoder, so nothing in the library
+    # has been used yet); all threads make the FIRST use of each class at
+    # the same moment, behind a barrier
+    from ..gen import frames as gf
+    from .. import refcodec, refspec
+    first_use = []
+    order = sorted(refspec.METHODS)
+    rnd.shuffle(order)
+    for idx in order:
+        sp = refspec.METHODS[idx]
+        vals = gf.assignment(rnd, sp)
+        for a, tt, _ in sp.args:
+            if tt == 'table':
+                vals[a] = {'k': 1}
+        try:
+            wire_ = refcodec.enc_method(idx, vals, 3)
+        except refcodec.RefError:
+            continue
+        first_use.append(({'op': 'encode_method', 'index': idx,
+                           'vals': vals, 'ch': 3},
+                          {'op': 'decode', 'data': wire_}))
+    fu_results = [[] for _ in range(T)]
 
     def body(t):
         try:
+            for k, (eop, dop) in enumerate(first_use):
+                barrier.wait()
+                pair = (eop, dop) if (t + k) % 2 == 0 else (dop, eop)
+                for op in pair:
+                    fu_results[t].append((k, op is eop, ops.run_op(op)))
+                    done[t] += 1
             for r in range(shard['rounds']):
                 if barrier.wait() == 0:
                     ops.set_switch(modes[r])      # toggled only at barriers
@@ -285,9 +350,7 @@ def _threads(shard, rec, pool):
                 for i in plans[t][r]:
                     got = ops.run_op(pool[i])
                     done[t] += 1
-                    if got != ref[(i, sw)]:
-                        with lock:
-                            mism.append((t, r, i, sw, got))
+                    results[t].append((r, i, sw, got))
         except threading.BrokenBarrierError:
             pass
         except BaseException as e:         # incl. BudgetExceeded
@@ -299,7 +362,8 @@ def _threads(shard, rec, pool):
     sys.setswitchinterval(1e-5)
     sysmon.lim_calls = sysmon.lim_jumps = 1 << 62
     inj = random.Random('C16-inject:%s:%s' % (shard['seed'], shard['rep']))
-    sysmon.enable_sched(0.02 if shard['rep'] % 2 == 0 else 0.1, inj)
+    sysmon.enable_sched(0.02 if shard['rep'] % 2 == 0 else 0.1, inj,
+                        plong=0.004 if shard['rep'] % 3 != 2 else 0.0005)
     threads = [threading.Thread(target=body, args=(t,), daemon=True)
                for t in range(T)]
     t0 = time.time()
@@ -314,6 +378,7 @@ def _threads(shard, rec, pool):
     rec.count('thread_ops', sum(done))
     rec.count('switches_inside_library_code', sysmon.switches_in_lib)
     rec.count('yields_injected', sysmon.yields_injected)
+    rec.count('long_pauses_injected', sysmon.long_yields[0])
     sig = canon.digest([list(x) for x in sysmon.switch_sig[:20000]])
     rec.seen('interleaving_signatures', sig)
     for t in range(T):
@@ -321,6 +386,53 @@ def _threads(shard, rec, pool):
             rec.nt(canon.digest((shard['rep'], t, r, plans[t][r][:8])))
     if hung:
         raise env.HarnessError('threads did not finish: %d alive' % len(hung))
+    # sequential reference, after the fact, both switch states
+    for i, op in enumerate(pool):
+        for sw in (False, True):
+            ops.set_switch(sw)
+            ref[(i, sw)] = _run_guarded(op)
+    ops.set_switch(False)
+    for t in range(T):
+        for r, i, sw, got in results[t]:
+            if ref[(i, sw)] is not None and got != ref[(i, sw)]:
+                mism.append((t, r, i, sw, got))
+    fu_bad = []
+    for k, (eop, dop) in enumerate(first_use):
+        want = {True: _run_guarded(eop), False: _run_guarded(dop)}
+        for t in range(T):
+            for kk, is_e, got in fu_results[t]:
+                if kk == k and want[is_e] is not None and got != want[is_e]:
+                    fu_bad.append((t, eop if is_e else dop, got,
+                                   want[is_e]))
+    rec.count('first_use_races', len(first_use))
+    if fu_bad:
+        t, op, got, want = fu_bad[0]
+        rec.violation('concurrent-first-use-differs:' + op['op'],
+                      '%d results of the first concurrent use of a method '
+                      'class by %d threads differ from the sequential result '
+                      '(first: %s of class index %#x in thread %d)'
+                      % (len(fu_bad), T, op['op'], op.get('index', 0), t),
+                      {'op': op, 'switch': False, 'prefix': [],
+                       'mechanism': 'concurrent-first-use-differs'},
+                      observed=got[:400], expected=want[:400])
+        return
+    # the sequential reference itself is checked against fresh interpreters
+    # (a race may have left something permanently wrong in this process)
+    sample = rnd.sample(range(len(pool)), min(24, len(pool)))
+    with concurrent.futures.ThreadPoolExecutor(12) as ex:
+        for i, exp in zip(sample, ex.map(
+                lambda k: _fresh_one(pool[k], False), sample)):
+            rec.count('fresh_interpreter_comparisons')
+            if ref[(i, False)] is not None and exp != ref[(i, False)]:
+                rec.violation('differs-from-fresh-interpreter:' +
+                              pool[i]['op'],
+                              'after the thread workload op #%d (%s) gives a '
+                              'result different from a fresh interpreter'
+                              % (i, pool[i]['op']),
+                              {'op': pool[i], 'switch': False, 'prefix': []},
+                              observed=ref[(i, False)][:400],
+                              expected=exp[:400])
+                return
     if errs:
         rec.violation('thread-workload-raised',
                       'a worker thread died: %s' % errs[0][:300],
@@ -328,8 +440,6 @@ def _threads(shard, rec, pool):
         return
     if mism:
         t, r, i, sw, got = mism[0]
-        rec.viol_counts['concurrent-result-differs:' + pool[i]['op']] += \
-            len(mism) - 1
         rec.violation('concurrent-result-differs:' + pool[i]['op'],
                       '%d of %d calls made from %d concurrent threads gave a '
                       'result different from the sequential one (first: op '
@@ -338,6 +448,8 @@ def _threads(shard, rec, pool):
                       {'op': pool[i], 'switch': sw, 'prefix': [],
                        'mechanism': 'concurrent-result-differs'},
                       observed=got[:400], expected=ref[(i, sw)][:400])
+        rec.viol_counts['concurrent-result-differs:' + pool[i]['op']] += \
+            len(mism) - 1
         return
     ops.set_switch(False)
     _state_check(rec, base, False, 'after the thread workload',
